@@ -491,27 +491,35 @@ class _SktimeForecaster(BaseForecaster):
         y_preds = []
         cutoffs = []
 
-        # enter into a detached cutoff mode
-        with self._detached_cutoff():
-            # set cutoff to time point before data
-            self._set_cutoff(_shift(y.index[0], by=-1))
-            # iterate over data
-            for new_window, _ in cv.split(y):
-                y_new = y.iloc[new_window]
+        # the horizon remembered from `fit` or `predict` is not to be replaced by the
+        # splitter's: the default `_update_predict_single` goes through `predict`,
+        # which stores the horizon it is given, so it is put back afterwards
+        remembered_fh = getattr(self, "_fh", None)
+        try:
+            # enter into a detached cutoff mode
+            with self._detached_cutoff():
+                # set cutoff to time point before data
+                self._set_cutoff(_shift(y.index[0], by=-1))
+                # iterate over data
+                for new_window, _ in cv.split(y):
+                    y_new = y.iloc[new_window]
 
-                # we cannot use `update_predict_single` here, as this would
-                # re-set the forecasting horizon, instead we use
-                # the internal `_update_predict_single` method
-                y_pred = self._update_predict_single(
-                    y_new,
-                    fh,
-                    X,
-                    update_params=update_params,
-                    return_pred_int=return_pred_int,
-                    alpha=alpha,
-                )
-                y_preds.append(y_pred)
-                cutoffs.append(self.cutoff)
+                    # we cannot use `update_predict_single` here, as this would
+                    # re-set the forecasting horizon, instead we use
+                    # the internal `_update_predict_single` method
+                    y_pred = self._update_predict_single(
+                        y_new,
+                        fh,
+                        X,
+                        update_params=update_params,
+                        return_pred_int=return_pred_int,
+                        alpha=alpha,
+                    )
+                    y_preds.append(y_pred)
+                    cutoffs.append(self.cutoff)
+        finally:
+            if remembered_fh is not None:
+                self._fh = remembered_fh
         return _format_moving_cutoff_predictions(y_preds, cutoffs)
 
     def _predict(self, fh, X=None, return_pred_int=False, alpha=DEFAULT_ALPHA):
